@@ -1,5 +1,6 @@
 """C15 — sequence queries return exactly the linked, correctly ordered pairs: guard clauses only."""
 from .util import *
+from ..callgraph import CallGraph
 
 EXPLANATION = """
 Claimed narrowly. Decides guard shapes; does NOT decide the 'if and only if' (a later qualifying partner when the nearest fails WHERE) nor independence from storage placement.
@@ -15,8 +16,8 @@ d) transform_where_clause_for_event_type (used by the per-type sub-query push-do
    Followed through same-module helpers and Option::map-style closures, so extracting the leaf rewrite into a helper is not reported.
 c) match_sequences tests `all_matches.len() >= limit` before processing a group and truncates after extending (LIMIT bounds the number of matched sequences).
 """
-FLOOR = 12
-REQUIRED = ["C15.a1", "C15.a2", "C15.a3", "C15.b", "C15.c", "C15.d", "C15.e", "C15.f", "C15.g", "C15.h", "C15.i", "C15.j"]
+FLOOR = 14
+REQUIRED = ["C15.a1", "C15.a2", "C15.a3", "C15.b", "C15.c", "C15.d", "C15.e", "C15.f", "C15.g", "C15.h", "C15.i", "C15.j", "C15.k", "C15.l"]
 
 
 def run(ctx):
@@ -294,6 +295,71 @@ def run(ctx):
             bad.append(("schema-from-first-event", "create_result_stream takes the payload columns of the result from one event: the fields only the other event type of the sequence has are dropped", sp(m, specs[-1].bb)))
         return bad
     ctx.run("C15.j", "K9 LOOP", "SequenceStreamMerger::create_result_stream", "the result schema covers the payload fields of every matched event", j_)
+
+    def k_(inst):
+        # the group key of a row is a function of that row's link value alone: two events with the same link
+        # value get the same key whatever zone, shard or position they are read from
+        b = F.fn("ColumnarGrouper::process_zones_for_event_type")
+        ex = one(b, r"ColumnarGrouper::extract_link_value$")
+        ky = one(b, r"ColumnarGrouper::scalar_to_key$")
+        cg = CallGraph(F)
+        READS = re.compile(r"FieldAccessor>::get_\w+_at$|PreparedAccessor::get_\w+_at$|ColumnValues::get_\w+_at$")
+        inst.sites = [sp(b, ex.bb), sp(b, ky.bb)]
+        bad = []
+
+        def reads_rows(callee):
+            return callee in cg.nodes and any(READS.search(norm_path(t)) for t in cg.reachable([callee]))
+        for c in (ex, ky):
+            for idx, a_ in enumerate(c.args):
+                for l in b.origins(a_):
+                    if l[0] != "call":
+                        continue
+                    lc = b.call_at(l[2])
+                    if lc is None or lc.bb == ex.bb:
+                        continue
+                    if lc.callee and reads_rows(lc.callee):
+                        bad.append(("row-key-depends-on-zone:%s" % lc.nname.split("::")[-1], "%s is given a value computed by %s, which reads rows of the zone: the key of a link value then depends on which other rows share its zone (storage context, shard, flush state), and equal link values stop pairing" % (c.nname.split("::")[-1], lc.nname.split("::")[-1]), sp(b, lc.bb)))
+        e = F.fn("ColumnarGrouper::extract_link_value")
+        nread = 0
+        for c in e.calls:
+            if c.cleanup or not READS.search(norm_path(c.nname)):
+                continue
+            nread += 1
+            L = e.origins(c.args[-1])
+            if not all(l[0] == "param" and l[1] == e.local_name(3) for l in L):
+                bad.append(("link-read-at-other-row", "extract_link_value reads the column at %s, not at the row it was asked for" % fmt_leaves(L), sp(e, c.bb)))
+        if nread < 3:
+            raise AnchorMissing("column reads in extract_link_value (%d)" % nread)
+        return bad
+    ctx.run("C15.k", "K7 PROV", "ColumnarGrouper::process_zones_for_event_type / extract_link_value", "a row's group key is computed from that row alone", k_)
+
+    def l_(inst):
+        # the merged column of a sequence side concatenates the batches of all shards: a position written into a
+        # buffer that spans the batches must come from a counter that spans them too
+        b = F.fn("SequenceStreamMerger::batches_to_zones")
+        bad, n = [], 0
+        for c in b.calls:
+            if c.cleanup or not re.search(r"IndexMut>::index_mut$|IndexMut::index_mut$", c.nname):
+                continue
+            n += 1
+            allocs = [l[2] for l in b.origins(c.args[0]) if l[0] in ("call", "agg")]
+            inst.sites.append(sp(b, c.bb) + " buffer <- " + fmt_leaves(b.origins(c.args[0])))
+            for l in arith_origins(b, c.args[1]):
+                if l[0] != "call" or not re.search(r"Iterator>::next$|Iterator::next$|range::<impl .*>::next$", l[1]):
+                    continue
+                nx = b.call_at(l[2])
+                for l2 in b.origins(nx.args[0]):
+                    if l2[0] in ("call", "agg") and allocs and in_cycle(b, l2[2], cut_blocks=allocs):
+                        bad.append(("batch-local-index", "batches_to_zones writes a buffer that spans all batches at a position counted by an iterator that restarts with every batch (%s): a null in a later batch marks a row of the first batch, whose time then reads as 0 and flips the order of an unrelated pair" % fmt_leaves({l2}), sp(b, c.bb)))
+        if n < 1:
+            raise AnchorMissing("indexed write (null bitmap) in batches_to_zones")
+        seen, out = set(), []
+        for x in bad:
+            if x[0] not in seen:
+                seen.add(x[0])
+                out.append(x)
+        return out
+    ctx.run("C15.l", "K9 LOOP + K7", "SequenceStreamMerger::batches_to_zones", "positions in the merged time column count rows across all batches", l_)
 
     def f_(inst):
         """Times are signed (events before 1970 have negative epoch seconds). The matcher and the grouper order rows by the i64 the
